@@ -397,7 +397,7 @@ pub fn run_c05(ctx: &Ctx) -> ! {
     let mut rep = Report::new(
         ctx,
         "model_checking",
-        "inputs: curated short messages (every outcome class: Ok with/without payload, InvalidTag, InvalidCollection, short-value InvalidData, UnexpectedEof at every primitive), the D-corpus, the tag x length grid, every byte string of <= 1 (2) bytes after a header, every token sequence of <= 3 (4) tokens; schedules: EVERY composition of every short message into chunks (2^(n-1)), uniform chunk sizes 1..n in three readiness modes, every 1-cut (and 2-cut) composition with every readiness pattern (0, 1 immediate, 1 deferred, 2 mixed) before each boundary and a deferred not-ready before the first byte, one spurious re-poll at every poll number; both entry points; the future is polled by a hand-written executor that owns every wake-up. Oracle: async outcome (content + payload | InvalidTag(t) | InvalidCollection | Io(kind)) == blocking outcome on the whole input; no lost wake-up; bounded polls. states = distinct (bytes delivered, not-ready answers, polls) triples; transitions = poll_read calls answered; non-trivial = schedule with more than one chunk or a not-ready answer",
+        "inputs: curated short messages (every outcome class: Ok with/without payload, InvalidTag, InvalidCollection, short-value InvalidData, UnexpectedEof at every primitive), the D-corpus, the tag x length grid, every byte string of <= 1 (2) bytes after a header, every token sequence of <= 3 (4) tokens; schedules: EVERY composition of every short message into chunks (2^(n-1)), uniform chunk sizes 1..n in three readiness modes, every 1-cut (and 2-cut) composition with every readiness pattern (0, 1 immediate, 1 deferred, 2 mixed) before each boundary and a deferred not-ready before the first byte, one spurious re-poll at every poll number; both entry points; the future is polled by a hand-written executor that owns every wake-up. every (offset, error kind) fault incl. WouldBlock and InvalidData on the short inputs in three delivery variants; Oracle: async outcome (content + payload | InvalidTag(t) | InvalidCollection | Io(kind)) == blocking outcome on the same input (and the same fault); no lost wake-up; bounded polls. states = distinct (bytes delivered, not-ready answers, polls) triples; transitions = poll_read calls answered; non-trivial = schedule with more than one chunk or a not-ready answer",
     );
     rep.assume("equal panics on both sides are not a C05 violation (C02 owns panics)");
     let tier = ctx.tier;
@@ -464,6 +464,59 @@ pub fn run_c05(ctx: &Ctx) -> ! {
         s.merge(p);
     }
     rep.section("all-compositions", s);
+
+    // (1b) I/O errors: the same fault (offset, kind) must come back as the same error kind from both parsers.
+    // WouldBlock is included on purpose: an async source that *returns* it as an error (instead of Pending)
+    // must see it propagated like any other kind, as the blocking parser does.
+    let mut kinds: Vec<ErrorKind> = FAULT_KINDS.to_vec();
+    kinds.push(ErrorKind::WouldBlock);
+    kinds.push(ErrorKind::InvalidData);
+    let fault_inputs: Vec<(String, Vec<u8>)> = shorts.iter().cloned().chain(short_messages(64).into_iter().filter(|(_, b)| b.len() > limit)).chain(corpus().into_iter().filter(|(_, b)| b.len() <= 80)).collect();
+    let parts = par_slice(ctx.threads, &fault_inputs, Stats::new, |st, _, (name, bytes)| {
+        let data = Arc::new(bytes.clone());
+        for k in 0..=bytes.len() {
+            for &kind in &kinds {
+                for variant in 0..3 {
+                    // prefix whole / byte-at-a-time / a not-ready answer right before the fault
+                    let mut script: Vec<Step> = match variant {
+                        0 | 2 => {
+                            if k > 0 {
+                                vec![Step::Chunk(k)]
+                            } else {
+                                vec![]
+                            }
+                        }
+                        _ => (0..k).map(|_| Step::Chunk(1)).collect(),
+                    };
+                    let blocking_script = {
+                        let mut b = script.clone();
+                        b.push(Step::Error(kind));
+                        b
+                    };
+                    if variant == 2 {
+                        script.push(Step::Pending { deferred: true });
+                    }
+                    script.push(Step::Error(kind));
+                    for entry in [Entry::Parse, Entry::Parts] {
+                        let (reference, _) = run_blocking(&data, blocking_script.clone(), entry);
+                        let sched = Sched {
+                            name: format!("fault({:?}@{},variant {})", kind, k, variant),
+                            script: script.clone(),
+                            spurious_at: None,
+                        };
+                        st.nontrivial.insert(fnv(format!("{}:{}", name, sched.name).as_bytes()));
+                        c05_one(name, &data, &reference, &sched, entry, st);
+                    }
+                }
+            }
+        }
+        st.sample(1, || json!({"input": name, "bytes": hex(bytes), "faults": "every offset x 9 error kinds (incl. WouldBlock, InvalidData) x 3 delivery variants"}));
+    });
+    let mut s = Stats::new();
+    for p in parts {
+        s.merge(p);
+    }
+    rep.section("io-error-equivalence", s);
 
     // (2) deviation-bounded families over the larger input set
     let mut inputs: Vec<(String, Vec<u8>)> = shorts.clone();
@@ -570,7 +623,18 @@ pub fn run_c05(ctx: &Ctx) -> ! {
 fn interrupt_variants(chunks: &[usize], f: &mut dyn FnMut(Vec<Step>, String)) {
     // no interrupt, then one Interrupted before each chunk, then two (adjacent and first+last)
     f(chunks_to_script(chunks), "plain".into());
-    for i in 0..chunks.len() {
+    // every position for schedules of up to 128 chunks; a fixed ladder of positions beyond that (the
+    // all-positions sweep is quadratic in the number of chunks)
+    let n = chunks.len();
+    let positions: Vec<usize> = if n <= 128 {
+        (0..n).collect()
+    } else {
+        let mut p = vec![0, 1, 2, 3, 4, 5, 6, 7, n / 8, n / 4, n / 3, n / 2, 2 * n / 3, 3 * n / 4, n - 3, n - 2, n - 1];
+        p.sort();
+        p.dedup();
+        p
+    };
+    for i in positions {
         let mut s = vec![];
         for (j, c) in chunks.iter().enumerate() {
             if j == i {
@@ -638,8 +702,8 @@ fn c06_judge(inp: &C06Input, which: &str, entry: Entry, sched_name: &str, script
 
 fn c06_schedules(n: usize, two_cut_limit: usize, one_cut_limit: usize, f: &mut dyn FnMut(Vec<usize>, String)) {
     f(vec![n], "whole".into());
-    let mut sizes: Vec<usize> = (1..=n.min(16)).collect();
-    sizes.extend([32usize, 64, 255, 256].iter().filter(|c| **c < n));
+    let mut sizes: Vec<usize> = if n <= 8192 { (1..=n.min(16)).collect() } else { vec![1, 7] };
+    sizes.extend([32usize, 64, 255, 256, 1000, 4096, 4097].iter().filter(|c| **c < n));
     for c in sizes {
         let mut v = vec![];
         let mut left = n;
@@ -684,6 +748,19 @@ pub fn run_c06(ctx: &Ctx) -> ! {
     let mut inputs: Vec<C06Input> = vec![];
     let mut msgs: Vec<(String, Vec<u8>)> = short_messages(64);
     msgs.extend(corpus());
+    // long names / values: readers that grow their buffer in steps only show themselves here
+    for (what, len) in [("value", 4097usize), ("value", 5000), ("value", 65535), ("name", 5000)] {
+        let mut m = r1::Msg::new(0x0101, 0, 1);
+        let (name, val) = if what == "value" { (b"v".to_vec(), vec![b'q'; len]) } else { (vec![b'n'; len], b"x".to_vec()) };
+        m.groups.push(r1::Group {
+            tag: r1::TAG_OPERATION,
+            attrs: vec![
+                r1::Attr { name, values: vec![r1::Val::Str(r1::T_TEXT, val)] },
+                r1::Attr { name: b"after".to_vec(), values: vec![r1::Val::Int(7)] },
+            ],
+        });
+        msgs.push((format!("long-{}-{}", what, len), r1::encode(&m)));
+    }
     for (name, bytes) in msgs {
         let m = match r1::decode(&bytes) {
             Ok(m) => m,
@@ -934,10 +1011,9 @@ pub fn run_c07(ctx: &Ctx) -> ! {
                     st.evaluations += 2;
                     st.traces += 2;
                     st.transitions += 2;
-                    let key = fnv(format!("{}:cut{}:{}:{:?}", name, k, variant, entry).as_bytes());
-                    st.states.insert(key);
+                    st.states_extra += 1;
                     if k > 0 {
-                        st.nontrivial.insert(key);
+                        st.nontrivial_extra += 1;
                     }
                     let (obs, _) = run_blocking(&data, script.clone(), entry);
                     judge("blocking", entry, name, &data, &script, ErrorKind::UnexpectedEof, &obs.outcome, st, &format!("cut after {} of {} bytes", k, n));
@@ -962,10 +1038,9 @@ pub fn run_c07(ctx: &Ctx) -> ! {
                     };
                     script.push(Step::Error(kind));
                     for entry in [Entry::Parse, Entry::Parts] {
-                        let key = fnv(format!("{}:fault{}:{:?}:{}:{:?}", name, k, kind, variant, entry).as_bytes());
-                        st.states.insert(key);
+                        st.states_extra += 1;
                         if k > 0 {
-                            st.nontrivial.insert(key);
+                            st.nontrivial_extra += 1;
                         }
                         st.evaluations += 1;
                         st.traces += 1;
